@@ -206,6 +206,20 @@ class Baselines:
             self.parse_cache.clear()
         self.runs = 0
         self.timeouts = 0
+        import time as _t
+        self.t0 = _t.time()
+        self.wall_cap = float(plan.get("knobs", {}).get("baseline_wall_cap_s", 12))
+        self.skipped_for_time = 0
+
+    def over_budget(self):
+        """Baselines of one run may not take for ever (a damaged file can make
+        every one of them run into its watchdog); what is not computed is not
+        judged, and is counted."""
+        import time as _t
+        if _t.time() - self.t0 > self.wall_cap:
+            self.skipped_for_time += 1
+            return True
+        return False
 
     def _mini(self):
         bp = P.new_plan(self.plan["profile"])
@@ -218,6 +232,10 @@ class Baselines:
     def parse(self, prog_idx):
         pp = self.plan["progs"][prog_idx]
         key = (pp["text"], pp.get("mode", 0))
+        if key not in self.parse_cache and self.over_budget():
+            b = Baseline()
+            b.why = "time"
+            return b
         if key not in self.parse_cache:
             bp = self._mini()
             bp["progs"] = [dict(pp)]
@@ -255,6 +273,10 @@ class Baselines:
 
     def execution(self, ed):
         key = canon_exec(self.plan, ed)
+        if key not in self.exec_cache and self.over_budget():
+            b = Baseline()
+            b.why = "hang"      # treated like an unavailable baseline: unjudged
+            return b
         if key not in self.exec_cache:
             bb = BaselineBuilder(self.plan, self.cap)
             bp = bb.build(ed)
